@@ -69,27 +69,105 @@ func rootOf2(v ssa.Value, stop *ssa.Phi) ssa.Value {
 type guardSite struct {
 	pkg, fn string
 	pred    string // InexactOverlap | AnyOverlap
-	inName  string // expected input parameter name ("" = any parameter other than the output)
+	in      int    // index of the input parameter in f.Params (receiver included)
+}
+
+// overlapFact: inside a helper, pred(param out, param in) whose true edge
+// panics and whose false edge every return lies behind — calling the helper
+// establishes the guard for the caller's arguments.
+type overlapFact struct {
+	pred    string
+	out, in int
+}
+
+func overlapWrappers(c *Ctx) map[*ssa.Function][]overlapFact {
+	res := map[*ssa.Function][]overlapFact{}
+	for _, p := range c.ld.pkgs {
+		rel := strings.TrimPrefix(strings.TrimPrefix(p.PkgPath, modPath), "/")
+		if rel == "internal/alias" {
+			continue
+		}
+		for _, f := range c.funcsOfPkg(rel) {
+			for _, ci := range callsNamed(f, "internal/alias.InexactOverlap", "internal/alias.AnyOverlap") {
+				call, ok := ci.(*ssa.Call)
+				if !ok {
+					continue
+				}
+				po, ok1 := call.Call.Args[0].(*ssa.Parameter)
+				pi, ok2 := call.Call.Args[1].(*ssa.Parameter)
+				if !ok1 || !ok2 {
+					continue
+				}
+				yes, no := successEdges(call, 0, isTrue)
+				okPanic := len(yes) > 0
+				for _, e := range yes {
+					blk := e.to()
+					if _, isP := blk.Instrs[len(blk.Instrs)-1].(*ssa.Panic); !isP {
+						okPanic = false
+					}
+				}
+				if !okPanic {
+					continue
+				}
+				cut := edgeSet{}
+				cut.addAll(no)
+				r := reach([]*ssa.BasicBlock{f.Blocks[0]}, cut)
+				behind := true
+				for _, b := range f.Blocks {
+					if _, isR := b.Instrs[len(b.Instrs)-1].(*ssa.Return); isR && r[b] {
+						behind = false
+					}
+				}
+				if !behind {
+					continue
+				}
+				// the helper itself writes nothing through the output before returning
+				pure := true
+				allInstrs(f, func(in ssa.Instruction) {
+					if st, isS := in.(*ssa.Store); isS {
+						if ia, isI := st.Addr.(*ssa.IndexAddr); isI && rootOf(ia.X) == ssa.Value(po) {
+							pure = false
+						}
+					}
+				})
+				if !pure {
+					continue
+				}
+				n := calleeName(&call.Call)
+				res[f] = append(res[f], overlapFact{n[strings.LastIndex(n, ".")+1:], paramIndex(f, po), paramIndex(f, pi)})
+			}
+		}
+	}
+	return res
+}
+
+func paramIndex(f *ssa.Function, p *ssa.Parameter) int {
+	for i, q := range f.Params {
+		if q == p {
+			return i
+		}
+	}
+	return -1
 }
 
 func runC53(c *Ctx) {
 	sites := []guardSite{
-		{"chacha20", "(*Cipher).XORKeyStream", "InexactOverlap", "src"},
-		{"salsa20", "XORKeyStream", "InexactOverlap", "in"},
-		{"chacha20poly1305", "(*chacha20poly1305).sealGeneric", "InexactOverlap", "plaintext"},
-		{"chacha20poly1305", "(*chacha20poly1305).sealGeneric", "AnyOverlap", "additionalData"},
-		{"chacha20poly1305", "(*chacha20poly1305).openGeneric", "InexactOverlap", "ciphertext"},
-		{"chacha20poly1305", "(*chacha20poly1305).openGeneric", "AnyOverlap", "additionalData"},
-		{"chacha20poly1305", "(*chacha20poly1305).seal", "InexactOverlap", "plaintext"},
-		{"chacha20poly1305", "(*chacha20poly1305).seal", "AnyOverlap", "additionalData"},
-		{"chacha20poly1305", "(*chacha20poly1305).open", "InexactOverlap", "ciphertext"},
-		{"chacha20poly1305", "(*chacha20poly1305).open", "AnyOverlap", "additionalData"},
-		{"xts", "(*Cipher).Encrypt", "InexactOverlap", "plaintext"},
-		{"xts", "(*Cipher).Decrypt", "InexactOverlap", "ciphertext"},
-		{"nacl/secretbox", "Seal", "AnyOverlap", "message"},
-		{"nacl/secretbox", "Open", "AnyOverlap", "box"},
-		{"nacl/sign", "Sign", "AnyOverlap", "message"},
-		{"nacl/sign", "Open", "AnyOverlap", "signedMessage"},
+		{"chacha20", "(*Cipher).XORKeyStream", "InexactOverlap", 2},
+		{"salsa20", "XORKeyStream", "InexactOverlap", 1},
+		{"chacha20poly1305", "(*chacha20poly1305).sealGeneric", "InexactOverlap", 3},
+		{"chacha20poly1305", "(*chacha20poly1305).sealGeneric", "AnyOverlap", 4},
+		{"chacha20poly1305", "(*chacha20poly1305).openGeneric", "InexactOverlap", 3},
+		{"chacha20poly1305", "(*chacha20poly1305).openGeneric", "AnyOverlap", 4},
+		{"chacha20poly1305", "(*chacha20poly1305).seal", "InexactOverlap", 3},
+		{"chacha20poly1305", "(*chacha20poly1305).seal", "AnyOverlap", 4},
+		{"chacha20poly1305", "(*chacha20poly1305).open", "InexactOverlap", 3},
+		{"chacha20poly1305", "(*chacha20poly1305).open", "AnyOverlap", 4},
+		{"xts", "(*Cipher).Encrypt", "InexactOverlap", 2},
+		{"xts", "(*Cipher).Decrypt", "InexactOverlap", 2},
+		{"nacl/secretbox", "Seal", "AnyOverlap", 1},
+		{"nacl/secretbox", "Open", "AnyOverlap", 1},
+		{"nacl/sign", "Sign", "AnyOverlap", 1},
+		{"nacl/sign", "Open", "AnyOverlap", 1},
 	}
 	if c.cfg != "" {
 		// other build configurations: seal/open are thin wrappers around the
@@ -103,7 +181,9 @@ func runC53(c *Ctx) {
 		}
 		sites = keep
 	}
-	// all guard call sites in the module (to notice sites added or removed)
+	wrappers := overlapWrappers(c)
+	// guard facts established anywhere in the module, directly or by calling a
+	// guard helper (inventory: the table below must not be larger than this)
 	found := 0
 	for _, p := range c.ld.pkgs {
 		rel := strings.TrimPrefix(strings.TrimPrefix(p.PkgPath, modPath), "/")
@@ -111,36 +191,76 @@ func runC53(c *Ctx) {
 			continue
 		}
 		for _, f := range c.funcsOfPkg(rel) {
-			found += len(callsNamed(f, "internal/alias.InexactOverlap", "internal/alias.AnyOverlap"))
+			if _, isW := wrappers[f]; !isW {
+				found += len(callsNamed(f, "internal/alias.InexactOverlap", "internal/alias.AnyOverlap"))
+			}
+			allInstrs(f, func(in ssa.Instruction) {
+				if call, ok := in.(*ssa.Call); ok {
+					if h := call.Call.StaticCallee(); h != nil {
+						found += len(wrappers[h])
+					}
+				}
+			})
 		}
 	}
-	c.check(found == len(sites), "C53.sites", "overlap guard sites in the module", nil, fmt.Sprintf("%d guard sites, all tabled", found), fmt.Sprintf("%d overlap guard call sites found, the frozen table has %d", found, len(sites)))
+	c.check(found >= len(sites), "C53.sites", "overlap guard sites in the module", nil, fmt.Sprintf("%d guard facts (direct or through a guard helper), %d tabled", found, len(sites)), fmt.Sprintf("%d overlap guards found in the module, the table of in-place APIs has %d", found, len(sites)))
 	for _, s := range sites {
 		f := c.fn(s.pkg, s.fn)
 		if f == nil {
 			continue
 		}
-		name := s.pkg + "." + s.fn + " " + s.pred + "(out, " + s.inName + ")"
+		if s.in >= len(f.Params) {
+			c.fail("C53.guard", s.pkg+"."+s.fn+" "+s.pred, f, "the function no longer has the tabled input parameter")
+			continue
+		}
+		inP := f.Params[s.in]
+		name := s.pkg + "." + s.fn + " " + s.pred + "(out, " + inP.Name() + ")"
+		// g: the instruction that establishes the guard; outArg/inArg its operands
 		var g *ssa.Call
+		var outArg, inArg ssa.Value
+		direct := false
 		for _, ci := range callsNamed(f, "internal/alias."+s.pred) {
 			call := ci.(*ssa.Call)
-			in := rootOf(call.Call.Args[1])
-			if p, ok := in.(*ssa.Parameter); ok && p.Name() == s.inName {
-				g = call
+			if rootOf(call.Call.Args[1]) == ssa.Value(inP) {
+				g, outArg, inArg, direct = call, call.Call.Args[0], call.Call.Args[1], true
 			}
 		}
 		if g == nil {
-			c.fail("C53.guard", name, f, "no "+s.pred+" call with the input parameter "+s.inName+" as second operand")
+			allInstrs(f, func(in ssa.Instruction) {
+				call, ok := in.(*ssa.Call)
+				if !ok || call.Call.StaticCallee() == nil {
+					return
+				}
+				for _, fact := range wrappers[call.Call.StaticCallee()] {
+					if fact.pred == s.pred && fact.in < len(call.Call.Args) && fact.out < len(call.Call.Args) && rootOf(call.Call.Args[fact.in]) == ssa.Value(inP) {
+						g, outArg, inArg = call, call.Call.Args[fact.out], call.Call.Args[fact.in]
+					}
+				}
+			})
+		}
+		if g == nil {
+			c.fail("C53.guard", name, f, "no "+s.pred+" check (direct, or through a helper that panics on overlap) with the input parameter "+inP.Name()+" as second operand")
 			continue
 		}
-		out := rootOf(g.Call.Args[0])
-		// (a) true edge panics
-		yes, no := successEdges(g, 0, isTrue)
-		okPanic := len(yes) > 0
-		for _, e := range yes {
-			blk := e.to()
-			if _, isP := blk.Instrs[len(blk.Instrs)-1].(*ssa.Panic); !isP {
-				okPanic = false
+		out := rootOf(outArg)
+		// (a) true edge panics; crossing = taking the false edge (direct) or
+		// returning from the helper (its returns all lie behind the false edge)
+		okPanic := true
+		cut := edgeSet{}
+		if direct {
+			yes, no := successEdges(g, 0, isTrue)
+			okPanic = len(yes) > 0
+			for _, e := range yes {
+				blk := e.to()
+				if _, isP := blk.Instrs[len(blk.Instrs)-1].(*ssa.Panic); !isP {
+					okPanic = false
+				}
+			}
+			cut.addAll(no)
+		} else {
+			for i, sc := range g.Block().Succs {
+				cut[edge{g.Block(), i}] = true
+				_ = sc
 			}
 		}
 		// (b) writers of the output buffer
@@ -159,14 +279,10 @@ func runC53(c *Ctx) {
 				if strings.HasPrefix(n, "builtin:len") || strings.HasPrefix(n, "builtin:cap") || strings.Contains(n, "internal/alias.") {
 					return
 				}
-				args := x.Call.Args
-				if x.Call.IsInvoke() {
-					// receiver is not the buffer
+				if h := x.Call.StaticCallee(); h != nil && len(wrappers[h]) > 0 {
+					return
 				}
-				for _, a := range args {
-					if _, isSl := a.Type().Underlying().(interface{ Elem() interface{} }); isSl {
-						continue
-					}
+				for _, a := range x.Call.Args {
 					if strings.HasPrefix(a.Type().String(), "[]") && rootOf(a) == out {
 						// the producer of the buffer itself (sliceForAppend(dst, n)) is not a writer of 'out'
 						writers = append(writers, x)
@@ -176,20 +292,18 @@ func runC53(c *Ctx) {
 			}
 		})
 		// the buffer's own producer call (out is an Extract of it) is excluded automatically: its args root at dst, not out
-		cut := edgeSet{}
-		cut.addAll(no)
 		var early ssa.Instruction
 		r := reach([]*ssa.BasicBlock{f.Blocks[0]}, cut)
 		for _, w := range writers {
-			if r[w.Block()] {
-				// same block as the guard but after it is fine only if the block is after the branch: the guard's own block precedes the branch
-				if w.Block() == g.Block() && instrIndex(w) > instrIndex(g) {
-					early = w
-					break
-				}
-				early = w
-				break
+			if !r[w.Block()] {
+				continue
 			}
+			// a helper call establishes the guard for the rest of its own block
+			if !direct && w.Block() == g.Block() && instrIndex(w) > instrIndex(g) {
+				continue
+			}
+			early = w
+			break
 		}
 		var ws []string
 		for _, w := range writers {
@@ -207,12 +321,12 @@ func runC53(c *Ctx) {
 			c.ok("C53.guard", name, g, fmt.Sprintf("all %d writers of the output region lie behind the predicate's false edge", len(writers)))
 		}
 		// (c) the predicate's output operand is the region written: its root is the buffer the writers use (by construction) and it is not the input
-		in := rootOf(g.Call.Args[1])
+		in := rootOf(inArg)
 		okExtent := in != out
 		detail := "the predicate compares a buffer with itself"
 		// when the output operand is carved out of a caller-supplied buffer
 		// (dst[:len(src)]), its extent must be the input's length from offset 0
-		if sl, isS := g.Call.Args[0].(*ssa.Slice); isS {
+		if sl, isS := outArg.(*ssa.Slice); isS {
 			if _, isParam := out.(*ssa.Parameter); isParam {
 				if sl.Low != nil {
 					if k, isC := constInt(sl.Low); !isC || k != 0 {
